@@ -534,6 +534,10 @@ func (req *Request) Process(store StorageClient, stat *Stats) (resp *Response, e
 		key := req.Keys[0]
 		var suc bool
 		suc, err = store.Append(key, req.Item.Body)
+		// Append only looks at the bytes: the body buffer and its SetData
+		// accounting stay with the request and are released here
+		cmem.DBRL.SetData.SubSizeAndCount(req.Item.CArray.Cap)
+		req.Item.CArray.Free()
 		if err != nil {
 			resp.Status = "SERVER_ERROR"
 			resp.Msg = err.Error()
